@@ -94,6 +94,7 @@ def build_tree(rng: random.Random, doc: Doc, items: List[Tuple[Any, Any]], leafk
     mode = shape.get("mode", "random")
     p_ind = shape.get("p_indirect_array", 0.1)
     shuffle = shape.get("shuffle_kids", False)
+    kids_direct = shape.get("kids_direct", "none")        # "none" | "all" | "mixed"
     leaf_of: Dict[Any, int] = {}
     leaf_counter = [0]
 
@@ -150,7 +151,14 @@ def build_tree(rng: random.Random, doc: Doc, items: List[Tuple[Any, Any]], leafk
                 leaf_of[k] = lid
             entries.append((leafkey, maybe_indirect(arr, "leaf")))
         else:
-            kids = [doc.add(node(ch, depth_left - 1, False, fl)) for ch, fl in chunks_of(its, depth_left)]
+            kids = []
+            for ch, fl in chunks_of(its, depth_left):
+                kid = node(ch, depth_left - 1, False, fl)
+                if kids_direct == "all" or (kids_direct == "mixed" and rng.random() < 0.5):
+                    kids.append(kid)                      # the node itself sits in the Kids array
+                    feats["direct_kid_nodes"] = feats.get("direct_kid_nodes", 0) + 1
+                else:
+                    kids.append(doc.add(kid))
             if shuffle and len(kids) > 1:
                 rng.shuffle(kids)
                 feats["kids_unordered"] = feats.get("kids_unordered", 0) + 1
@@ -168,6 +176,13 @@ def build_tree(rng: random.Random, doc: Doc, items: List[Tuple[Any, Any]], leafk
 
 
 def random_shape(rng: random.Random, deep: bool = False) -> Dict[str, Any]:
+    sh = _random_shape(rng, deep)
+    r = rng.random()
+    sh["kids_direct"] = "none" if r < 0.64 else "all" if r < 0.82 else "mixed"
+    return sh
+
+
+def _random_shape(rng: random.Random, deep: bool = False) -> Dict[str, Any]:
     r = rng.random()
     if deep:
         mode = rng.choice(["degenerate_right", "degenerate_left", "single_kid_chain", "degenerate_right"])
@@ -604,6 +619,9 @@ def gen_doc(rng: random.Random, fam: str, opts: Optional[Dict[str, Any]] = None)
         assert [k for k, _ in flat] == tree_keys
         stats.update({"nt_nodes": st["nodes"], "nt_depth": st["depth"], "nt_maxfan": st["maxfan"], "nt_entries": st["entries"]})
         feats["nt_mode_" + shape["mode"]] = 1
+        if st["direct_kids"]:
+            feats["nt_kids_direct_%s_depth%d" % ("all" if st["direct_kids"] == st["nodes"] - 1 else "mixed", st["depth"])] = 1
+            stats["nt_direct_kids"] = st["direct_kids"]
         names_dict = {"Dests": doc.add(root) if rng.random() < 0.6 else root}
         case["nt_root"] = root
     elif rng.random() < 0.3:
@@ -679,6 +697,9 @@ def gen_doc(rng: random.Random, fam: str, opts: Optional[Dict[str, Any]] = None)
         assert [k for k, _ in R.tree_flatten(doc, root, "Nums")] == [r["start"] for r in ranges]
         stats.update({"pl_nodes": st["nodes"], "pl_depth": st["depth"], "pl_maxfan": st["maxfan"], "pl_ranges": len(ranges)})
         feats["pl_mode_" + shape["mode"]] = 1
+        if st["direct_kids"]:
+            feats["pl_kids_direct_%s_depth%d" % ("all" if st["direct_kids"] == st["nodes"] - 1 else "mixed", st["depth"])] = 1
+            stats["pl_direct_kids"] = st["direct_kids"]
         cat["PageLabels"] = doc.add(root) if rng.random() < 0.6 else root
         case["labels"] = R.page_labels(ranges, npages)
         case["label_styles"] = [str(R.range_of_page(ranges, i)["S"]) for i in range(npages)]
